@@ -166,6 +166,47 @@ def apply_selection_shape(ctx, rule='A5'):
             if any(t.id in dom.get(c.id, ()) for c in rm_calls):
                 ok = True
                 detail = f'L{t.lineno}: {short(t.ast, 80)} skips the selected edge'
+    if not ok:
+        # filter form: the edges handed to the derived-edge removal (a loop here, or a private helper containing it)
+        # come from a comprehension / generator whose filter is true exactly for the edges other than the selected
+        # one - decided as a truth table over (source is the choice node, target is the selected option)
+        import itertools
+
+        def holds(e, env):
+            if isinstance(e, ast.BoolOp):
+                vals = [holds(v, env) for v in e.values]
+                return all(vals) if isinstance(e.op, ast.And) else any(vals)
+            if isinstance(e, ast.UnaryOp) and isinstance(e.op, ast.Not):
+                return not holds(e.operand, env)
+            if isinstance(e, ast.Compare) and len(e.ops) == 1 and isinstance(e.ops[0], (ast.Eq, ast.NotEq)):
+                l, r = norm(e.left), norm(e.comparators[0])
+                neg = isinstance(e.ops[0], ast.NotEq)
+                if l.endswith('[0]') and r == 'choice_node':
+                    return env[0] != neg
+                if l.endswith('[1]') and r == 'target_option_node':
+                    return env[1] != neg
+                x = expand_locals(fn, e)
+                sides = [x.left, x.comparators[0]]
+                if any(isinstance(y, ast.Tuple) and [norm(z) for z in y.elts] == ['choice_node', 'target_option_node']
+                       for y in sides) and any(norm(y).endswith('[:2]') for y in sides):
+                    return (env[0] and env[1]) != neg
+            raise AnalysisError(f'selected-edge filter: unrecognised test `{norm(e)}`')
+        removers = {u.name for u in unit_functions(ctx.prog, fn)[1:]
+                    if any(True for _ in calls(u, 'get_derived_edges_for_edge'))}
+        for g in [x for x in ast.walk(fn.node) if isinstance(x, (ast.GeneratorExp, ast.ListComp, ast.SetComp))]:
+            if len(g.generators) != 1 or not g.generators[0].ifs or 'choice_out_edges' not in norm(g.generators[0].iter):
+                continue
+            try:
+                flt = all(all(holds(i, env) for i in g.generators[0].ifs) == (not (env[0] and env[1]))
+                          for env in itertools.product((False, True), repeat=2))
+            except AnalysisError:
+                continue
+            holders = {norm(a.targets[0]) for a in walk_fn(fn) if isinstance(a, ast.Assign) and a.value is g}
+            used = any(call_name(c) in removers and any(a is g or norm(a) in holders for a in c.args)
+                       for c in calls(fn))
+            if flt and used:
+                ok = True
+                detail = f'L{g.lineno}: the removal only receives edges passing `{short(g.generators[0].ifs[0], 70)}`'
     ctx.ob(rule, fkey(fn, rule, 'selected-option-kept'), ok, fn.where,
            'what the selected option derives is never removed: the (choice node -> selected option) edge is '
            'skipped before the derived-edge removal', detail)
